@@ -308,6 +308,33 @@ func (e *streamExec) prepareToken() bool {
 		}
 		o.Sig("C08", "seal", "stream-vs-buffer", e.p.Tokens[0].Kind)
 	}
+	// the sinks callers actually hand over: a bytes.Buffer, fresh or already holding a frame
+	// prefix / an earlier token (output is APPENDED and the CID is that of the appended bytes)
+	for _, prefix := range [][]byte{nil, {0xca, 0xfe}, ref} {
+		buf := bytes.NewBuffer(append([]byte{}, prefix...))
+		var bc cid.Cid
+		if guard(o, "encode-writer:"+e.p.API, func() { _, bc, err = e.encodeToken(buf) }) {
+			return false
+		}
+		o.Eval("C18")
+		o.Sig("C18", "token", e.p.API, e.p.Typed, "write", "bytes.Buffer", len(prefix) > 0)
+		attrs := map[string]string{"api": e.p.API, "sink": "bytes.Buffer"}
+		if err != nil {
+			o.Violate("C18", "write-faultfree-failed", fmt.Sprintf("stream write into a bytes.Buffer holding %d bytes failed: %v", len(prefix), err), attrs)
+			continue
+		}
+		got := buf.Bytes()
+		if len(got) < len(prefix) || !bytes.Equal(got[:len(prefix)], prefix) || !bytes.Equal(got[len(prefix):], ref) {
+			o.Violate("C18", "write-bytes-differ", fmt.Sprintf("stream write into a bytes.Buffer holding %d bytes did not append exactly the bytes of the buffered call", len(prefix)), attrs)
+		}
+		if e.p.API == "sealed" {
+			o.Eval("C08")
+			if !bytes.Equal(bc.Bytes(), harnessCID(ref)) {
+				o.Violate("C08", "stream-seal-cid", fmt.Sprintf("ToSealedWriter into a bytes.Buffer holding %d bytes reports a CID that is not the hash of the token it wrote", len(prefix)), attrs)
+				o.Violate("C18", "write-cid-differs", fmt.Sprintf("ToSealedWriter into a bytes.Buffer holding %d bytes reports another CID than the buffered call", len(prefix)), attrs)
+			}
+		}
+	}
 	e.wcalls, e.wsizes = sw.calls, sw.sizes
 	if e.p.API != "dagjson" {
 		if env, err := cbDecodeAll(ref); err == nil && env.Major == 4 && len(env.Kids) == 2 {
